@@ -559,6 +559,7 @@ func runC01(c *Check) {
 		{code: "globalThis.__f = function(H, a, b, c) { { function fd() { return 1 } function fd() { return 2 } } return fd(); };"},
 		{code: "globalThis.__f = function(H, a, b, c) { 'use\\x20strict'; return (function() { return typeof this })(); };"},
 		{code: "globalThis.__f = function(H, a, b, c) { ('use strict'); return (function() { return typeof this })(); };"},
+		{code: "globalThis.__f = function(H, a, b, c) { return [\"\" + /a/ig, `${/b/yg}`, \"x\" + /c/gi]; };"},
 	}, "known-probes")
 	c01Literals(c, pool)
 	c01Statements(c, x)
